@@ -8,8 +8,8 @@ export CARGO_TARGET_DIR=$wt/target
 crate=${CRATE:-warp-core}
 feat=""
 [ "$crate" = warp-core ] && feat="--features native_rule_bootstrap,trusted_runtime,host_test"
-git stash -q --include-untracked -- crates 2>/dev/null
-git checkout -q -- crates; 
+# never use `git stash` here: the stash stack is shared by all worktrees of /repo
+git checkout -q -- crates
 # restore demo files from demo/
 for f in demo/*.rs; do [ -f "$f" ] && cp "$f" crates/$crate/tests/; done
 echo "--- without change"; timeout 3000 cargo test -p $crate --offline $feat --test $demo 2>&1 | grep -E "^test result|^error|FAILED|panicked" | head -5
